@@ -1,7 +1,6 @@
 package main
 
 import (
-	"runtime"
 	"context"
 	"database/sql"
 	_ "embed"
@@ -9,6 +8,7 @@ import (
 	"fmt"
 	"os"
 	"path/filepath"
+	"runtime"
 	"strings"
 	"sync"
 	"time"
